@@ -844,6 +844,13 @@ def search(ctx, model, why):
             continue
         if cfg["cls"] == "Derived" and "XRay" in json.dumps(cfg):
             continue
+        with warnings.catch_warnings():
+            warnings.simplefilter("ignore")
+            r = D.check_operator(A, rng)
+        kid = classify_known(ctx, model, cfg, A, r) if not r["ok"] else None
+        if kid is not None and ctx.is_known(kid):
+            ctx.count("search:known:" + kid)
+            continue
         bad["cfg"] = cfg
         return bad
     return None
